@@ -2,7 +2,7 @@
    (generic) and Inst_Walker.v / Inst_RunState.v (about tables REGENERATED from /repo on this run). *)
 From Coq Require Import List NArith Bool Arith Lia String.
 From RG.Ast Require Import Tree Walker WalkerProof WalkSpec WfCheck WalkPanic.
-From RG.Engine Require Import RunState Reentrant.
+From RG.Engine Require Import AnswerCache RunState Reentrant.
 From RGW Require Import Gen_AstSchema Gen_Walker Gen_WalkTags Gen_WalkState Gen_RunnerState Inst_Walker Inst_RunState.
 Import ListNotations.
 
@@ -80,6 +80,26 @@ Print Assumptions C09_carried_state_is_reset.
 Theorem C09_no_package_level_state : gen_pkg_level_writes = [].
 Proof. exact no_package_level_state. Qed.
 Print Assumptions C09_no_package_level_state.
+
+(* what the engine keeps BETWEEN runs -- types found by name (ctx.GetType / ctx.GetInterface, Type.Implements ...), imported packages --
+   is stored only when the lookup succeeded: every store of an answer that comes with an error is reached only when that error is nil
+   (regenerated classification gen_cache_stores). Hence, for every resolver (= what a fresh engine answers, failures included) and every
+   sequence of lookups on one engine, each lookup answers what the resolver answers: a failed lookup leaves nothing behind. *)
+Theorem C09_answers_kept_between_runs_are_history_independent :
+  forall (key val err : Type) (key_eqb : key -> key -> bool), (forall a b, reflect (a = b) (key_eqb a b)) ->
+  forall (resolve : key -> val + err) (junk : val) (ks : list key),
+    fst (asks key val err key_eqb resolve junk cache_store_policy [] ks) = map resolve ks.
+Proof. exact answers_history_independent. Qed.
+Print Assumptions C09_answers_kept_between_runs_are_history_independent.
+
+(* ... and it matters: a table that is written whatever came back answers the second lookup of a missing name with the junk
+   value (nil) that accompanied the error *)
+Theorem C09_unchecked_store_refuted :
+  forall (key val err : Type) (key_eqb : key -> key -> bool), (forall a b, reflect (a = b) (key_eqb a b)) ->
+  forall (resolve : key -> val + err) (junk : val) k e, resolve k = inr e ->
+    fst (asks key val err key_eqb resolve junk StoreAlways [] [k; k]) = [inr e; inl junk].
+Proof. exact always_refuted. Qed.
+Print Assumptions C09_unchecked_store_refuted.
 
 (* what is carried goes where it belongs: the runner's field of each role is the RunnerState's field of that role (the
    matcher state of the rule loop and the one of the Contains() searches are not mixed up, the operand stack is the eval
